@@ -30,7 +30,7 @@ BATCH = 250
 
 
 def budget(tier):
-    return 400 if tier == "quick" else 6000
+    return 400 if tier == "quick" else 18000
 
 
 def _nudge(x, n):
